@@ -224,16 +224,16 @@ var fourObs = func(p string) []string { return fourNames(p) }
 var probeSpecs = []probeSpec{
 	{prop: "width", observe: []string{"width"}, shapes: [][]string{{"10px"}, {"2em"}, {"50%"}, {"auto"}}, lower: "5px"},
 	{prop: "padding-left", observe: []string{"padding-left"}, shapes: [][]string{{"10px"}, {"3pt"}}, lower: "5px"},
-	{prop: "margin", observe: fourObs("margin"), shapes: [][]string{{"1px"}, {"1px", "2px"}, {"1px", "2px", "3px"}, {"1px", "2px", "3px", "4px"}, {"auto", "2em"}}, lower: "9px"},
+	{prop: "margin", observe: fourObs("margin"), shapes: [][]string{{"1px"}, {"1px", "2px"}, {"1px", "2px", "3px"}, {"1px", "2px", "3px", "4px"}, {"auto", "2em"}, {"2px", "2px"}, {"1px", "3px", "1px", "3px"}}, lower: "9px"},
 	{prop: "padding", observe: fourObs("padding"), shapes: [][]string{{"1px", "2px"}, {"1px", "2px", "3px"}}, lower: "9px"},
 	{prop: "border-width", observe: fourObs("border-width"), shapes: [][]string{{"1px", "thick", "3px"}, {"thin"}}, lower: "9px"},
-	{prop: "color", observe: []string{"color"}, shapes: [][]string{{"red"}, {"#00ff00"}, {"@rgb", "10", "20", "30", "@)"}, {"@rgb", "@calc", "10", "@)", "20", "30", "@)"}, {"@rgba", "10", "20", "30", "0.5", "@)"}}, lower: "blue"},
+	{prop: "color", observe: []string{"color"}, shapes: [][]string{{"red"}, {"#00ff00"}, {"@rgb", "10", "20", "30", "@)"}, {"@rgb", "255", "20", "20", "@)"}, {"@rgb", "7", "7", "7", "@)"}, {"@rgb", "@calc", "10", "@)", "20", "30", "@)"}, {"@rgba", "10", "20", "30", "0.5", "@)"}}, lower: "blue"},
 	{prop: "background-color", observe: []string{"background-color"}, shapes: [][]string{{"red"}, {"@rgb", "1", "2", "3", "@)"}, {"@hsl", "120", "50%", "50%", "@)"}}, lower: "blue"},
 	{prop: "border-top", observe: []string{"border-top-width", "border-top-style", "border-top-color"}, shapes: [][]string{{"2px", "solid", "red"}, {"dashed", "blue"}, {"thin"}}, lower: "9px dotted green"},
 	{prop: "outline", observe: []string{"outline-width", "outline-style", "outline-color"}, shapes: [][]string{{"2px", "solid", "red"}, {"dashed"}}, lower: "9px dotted green"},
 	{prop: "border", observe: []string{"border-top-width", "border-left-style", "border-bottom-color"}, shapes: [][]string{{"2px", "solid", "red"}, {"double"}}, lower: "9px dotted green"},
 	{prop: "font-family", observe: []string{"font-family"}, shapes: [][]string{{"Arial"}, {"Arial", "sans-serif"}, {"\"My Font\"", "Foo", "serif"}}, lower: "Lowerfam", sep: ","},
-	{prop: "transform", observe: []string{"transform"}, shapes: [][]string{{"@translate", "10px", "20px", "@)"}, {"@scale", "2", "@)", "@rotate", "90deg", "@)"}}, lower: "scale(3)"},
+	{prop: "transform", observe: []string{"transform"}, shapes: [][]string{{"@translate", "10px", "20px", "@)"}, {"@translate", "10px", "10px", "@)"}, {"@scale", "2", "@)", "@rotate", "90deg", "@)"}}, lower: "scale(3)"},
 	{prop: "border-radius", observe: cornerNames, shapes: [][]string{{"1px", "2px"}, {"1px", "2px", "3px", "4px"}, {"5px"}}, lower: "9px"},
 	{prop: "flex", observe: []string{"flex-grow", "flex-shrink", "flex-basis"}, shapes: [][]string{{"2", "3", "10px"}, {"2"}, {"10px"}, {"none"}}, lower: "9 9 9px"},
 	{prop: "text-align", observe: []string{"text-align-all", "text-align-last"}, shapes: [][]string{{"right"}, {"justify"}}, lower: "left"},
@@ -262,7 +262,17 @@ func genVarCase(r *rng.R) *varCase {
 	}
 	tag := func(s string) { c.Shape = append(c.Shape, s) }
 	pVar := 2 + r.Intn(5) // out of 8
+	used := map[string]string{} // leaf text -> a custom property already resolving to it
 	wrap := func(leaf string) string {
+		if prev, ok := used[leaf]; ok && r.P(2, 3) {
+			// a second, legal reference to the same custom property inside one value
+			tag("repeated")
+			if r.P(1, 4) {
+				tag("fallback-reuse")
+				return "var(" + fresh("undef") + ", var(" + prev + "))"
+			}
+			return "var(" + prev + ")"
+		}
 		if r.Intn(8) >= pVar {
 			return leaf
 		}
@@ -276,6 +286,7 @@ func genVarCase(r *rng.R) *varCase {
 		case mode < 5:
 			v := fresh("v")
 			bind(v, leaf)
+			used[leaf] = v
 			tag("direct")
 			return fnName + "(" + v + ")"
 		case mode < 7:
@@ -288,6 +299,7 @@ func genVarCase(r *rng.R) *varCase {
 				cur = nx
 			}
 			bind(cur, leaf)
+			used[leaf] = v
 			tag("chain")
 			return fnName + "(" + v + ")"
 		case mode < 9:
@@ -369,6 +381,47 @@ func genVarCase(r *rng.R) *varCase {
 	sep := " "
 	if ps.sep == "," {
 		sep = ", "
+	}
+	// repeated references through another custom property, diamond-shaped graphs (four lengths)
+	switch ps.prop {
+	case "margin", "padding", "border-width", "border-radius":
+		if r.P(1, 5) {
+			l := []string{"1px", "2em", "3px", "4pt"}[r.Intn(4)]
+			tag("repeated")
+			switch r.Intn(5) {
+			case 0:
+				x, pair := fresh("x"), fresh("pair")
+				bind(x, l)
+				bind(pair, "var("+x+") var("+x+")")
+				tag("repeated-in-variable")
+				c.Value = "5px 6px var(" + pair + ")"
+			case 1:
+				d, b1, b2, a := fresh("d"), fresh("b"), fresh("b"), fresh("a")
+				bind(d, l)
+				bind(b1, "var("+d+")")
+				bind(b2, "var("+d+")")
+				bind(a, "var("+b1+") var("+b2+")")
+				tag("diamond")
+				c.Value = "var(" + a + ") 7px"
+			case 2:
+				x := fresh("x")
+				bind(x, l)
+				tag("fallback-reuse")
+				c.Value = "var(" + x + ") var(" + fresh("undef") + ", var(" + x + ")) 4px"
+			case 3:
+				x := fresh("x")
+				bind(x, l)
+				c.Value = "var(" + x + ") var(" + x + ") var(" + x + ")"
+			default:
+				x, y, z := fresh("x"), fresh("y"), fresh("z")
+				bind(x, l)
+				bind(y, "var("+x+") 9px")
+				bind(z, "var("+y+") var("+x+")")
+				tag("diamond")
+				c.Value = "var(" + z + ")"
+			}
+			return c
+		}
 	}
 	// sometimes a multi-token variable for the whole top-level value
 	if r.P(1, 8) && !strings.HasPrefix(shape[0], "@") {
